@@ -74,8 +74,10 @@ func c24DefectClass(m *mSchema) string {
 		for j := i + 1; j < len(m.Eff); j++ {
 			if m.Eff[i].K != "absent" && m.Eff[i] == m.Eff[j] {
 				how := m.Schema[j].Tag.K
-				if how == "none" {
-					how = m.Schema[i].Tag.K
+				if how == "none" || how == "fresh" {
+					if o := m.Schema[i].Tag.K; o != "none" {
+						how = o
+					}
 				}
 				return fmt.Sprintf("collision-%s-%s-by-%s", kindOf(i), kindOf(j), how)
 			}
